@@ -43,25 +43,35 @@ struct Stats {
     reads: u64,
 }
 
+/// The event types the buffer is exercised with: a plain integer, a
+/// zero-sized type (`Output<()>` is a common idiom: every value is equal, only
+/// counts are observable) and a heap-allocated value.
 fn run_buffer(cap: usize, closed: bool, ops: &[Op]) -> Result<Stats, String> {
+    let a = run_buffer_t::<u64>(cap, closed, ops, |x| x)?;
+    run_buffer_t::<()>(cap, closed, ops, |_| ()).map_err(|e| format!("event type (): {}", e))?;
+    run_buffer_t::<String>(cap, closed, ops, |x| format!("event-{}", x)).map_err(|e| format!("event type String: {}", e))?;
+    Ok(a)
+}
+
+fn run_buffer_t<T: PartialEq + std::fmt::Debug + Clone + Send + 'static>(cap: usize, closed: bool, ops: &[Op], mk: fn(u64) -> T) -> Result<Stats, String> {
     let mut st = Stats::default();
-    let mut b: EventBuffer<u64> = if closed { EventBuffer::with_capacity_closed(cap) } else { EventBuffer::with_capacity(cap) };
+    let mut b: EventBuffer<T> = if closed { EventBuffer::with_capacity_closed(cap) } else { EventBuffer::with_capacity(cap) };
     let w = b.writer();
     let w2 = w.clone();
-    let mut model: VecDeque<u64> = VecDeque::new();
+    let mut model: VecDeque<T> = VecDeque::new();
     let mut open = !closed;
     let mut next = 1u64;
     for (i, op) in ops.iter().enumerate() {
         match op {
             Op::Write => {
                 // Alternate between two clones of the writer.
-                if next % 2 == 0 { w.write(next) } else { w2.write(next) };
+                if next % 2 == 0 { w.write(mk(next)) } else { w2.write(mk(next)) };
                 if open {
                     if model.len() == cap {
                         model.pop_front();
                         st.overflows += 1;
                     }
-                    model.push_back(next);
+                    model.push_back(mk(next));
                 } else {
                     st.ignored_writes += 1;
                 }
@@ -84,16 +94,16 @@ fn run_buffer(cap: usize, closed: bool, ops: &[Op]) -> Result<Stats, String> {
                 open = false;
             }
             Op::Drain => {
-                let got: Vec<u64> = b.by_ref().collect();
-                let exp: Vec<u64> = model.drain(..).collect();
+                let got: Vec<T> = b.by_ref().collect();
+                let exp: Vec<T> = model.drain(..).collect();
                 if got != exp {
                     return Err(format!("op {}: drain returned {:?}, expected {:?}", i, got, exp));
                 }
             }
         }
     }
-    let got: Vec<u64> = b.by_ref().collect();
-    let exp: Vec<u64> = model.drain(..).collect();
+    let got: Vec<T> = b.by_ref().collect();
+    let exp: Vec<T> = model.drain(..).collect();
     if got != exp {
         return Err(format!("final drain returned {:?}, expected {:?}", got, exp));
     }
